@@ -1,11 +1,22 @@
 # Sourced through BASH_ENV by every non-interactive bash; only acts inside
 # newpolicy.sh. Traces every simple command (DEBUG trap, inherited by
 # functions and subshells through set -T) into $VERIF_TRACE and kills the
-# script with SIGKILL when the global step counter reaches $VERIF_KILL_AT.
+# script with SIGKILL when the global step counter reaches $VERIF_KILL_AT;
+# can hold the script in front of a chosen command.
 case "$0" in
 *newpolicy.sh)
     __vf_step() {
         echo "$BASHPID|$2|$1" >> "$VERIF_TRACE"
+        # Pause before a command that starts with $VERIF_PAUSE_CMD while
+        # the file $VERIF_PAUSE_FILE exists (schedule control).
+        if [ -n "$VERIF_PAUSE_CMD" ] && [ -e "$VERIF_PAUSE_FILE" ]; then
+            case "$1" in
+            "$VERIF_PAUSE_CMD"*)
+                echo $$ > "$VERIF_PAUSE_FILE.at"
+                while [ -e "$VERIF_PAUSE_FILE" ]; do sleep 0.01; done
+                ;;
+            esac
+        fi
         if [ -n "$VERIF_KILL_AT" ]; then
             mapfile -t __vf_l < "$VERIF_TRACE"
             if [ "${#__vf_l[@]}" -ge "$VERIF_KILL_AT" ]; then
